@@ -49,6 +49,9 @@ def cache_key_injective(c):
         return outs
     c.entry = entry
     c.ensures("equal-keys-imply-equal-requests", lambda r: z3.Implies(r.value.items[0].t == r.value.items[1].t, z3.And(n1.t == n2.t, ns1.t == ns2.t)))
+    slash = z3.StringVal("/")
+    no_slash = z3.And(z3.Not(z3.Contains(n1.t, slash)), z3.Not(z3.Contains(n2.t, slash)), z3.Implies(U.is_str(ns1.t), z3.Not(z3.Contains(U.s(ns1.t), slash))), z3.Implies(U.is_str(ns2.t), z3.Not(z3.Contains(U.s(ns2.t), slash))))
+    c.ensures("equal-keys-imply-equal-requests(names-and-namespaces-without-slash)", lambda r: z3.Implies(z3.And(no_slash, r.value.items[0].t == r.value.items[1].t), z3.And(n1.t == n2.t, ns1.t == ns2.t)))
     c.raises()
     c.replay("code", code=REPLAY_KEY)
 
@@ -159,7 +162,8 @@ def run(m):
     k1 = loader.cache_key(n1, None, {} if ns1 is None else {"ns": ns1})
     k2 = loader.cache_key(n2, None, {} if ns2 is None else {"ns": ns2})
     failing = k1 == k2 and (n1, ns1) != (n2, ns2)
-    w = "slash-collision" if failing else "none"
+    has_slash = any("/" in (x or "") for x in (n1, n2, ns1, ns2))
+    w = ("slash-collision" if has_slash else "namespace-ignored") if failing else "none"
     return {"failing": failing, "witness": w, "call": f"cache_key({n1!r}, ns={ns1!r}) vs cache_key({n2!r}, ns={ns2!r})", "result": f"{k1!r} == {k2!r}"}
 '''
 
